@@ -36,6 +36,13 @@ func reprsOf(z int64) []TV {
 	return out
 }
 
+// representations of an unsigned value that does not fit int64
+func reprsOfU(u uint64) []TV {
+	s := strconv.FormatUint(u, 10)
+	return []TV{tvUint("uint64", u), tvUint("uint", u), tvSlice("[]uint64", tvUint("uint64", u)), tvSlice("[]uint", tvUint("uint", u)),
+		tvList(tvUint("uint64", u)), tvStr(s), tvJSON(s), tvSlice("[]string", tvStr(s)), tvList(tvJSON(s), tvUint("uint", u))}
+}
+
 // tvFromAny rebuilds a TV from a value decoded by encoding/json
 func tvFromAny(v interface{}) TV {
 	switch x := v.(type) {
@@ -144,6 +151,23 @@ func init() {
 				for k := 0; k < 12; k++ {
 					bb := pick(r, other)
 					add(pIn{K: "match", V: pick(r, rs), V2: &bb})
+				}
+			}
+			// unsigned values beyond int64, on both sides, against themselves and against their int64 reinterpretation
+			for _, u := range []uint64{1 << 63, 1<<63 + 1, ^uint64(0), ^uint64(0) - 2} {
+				rs := reprsOfU(u)
+				wrapped := reprsOf(int64(u))
+				for _, a := range rs {
+					for _, b := range rs {
+						bb := b
+						add(pIn{K: "match", V: a, V2: &bb})
+					}
+					for _, b := range wrapped[:6] {
+						bb := b
+						add(pIn{K: "match", V: a, V2: &bb})
+						aa := a
+						add(pIn{K: "match", V: b, V2: &aa})
+					}
 				}
 			}
 			// strings that are not numbers, unicode
